@@ -18,25 +18,25 @@ Example C04_witness_commit :
   snd r = true /\ observe (fst r) = (mkcells [(0, 9); (1, 4)] true 7 [0; 1], mkcells [(0, 9); (1, 4)] true 7 [0; 1]).
 Proof. vm_compute. split; reflexivity. Qed.
 
-(* hypothesis of the partial theorem: a fault in the reload reads is outside the class ... *)
+(* hypothesis of the pre-fix partial theorem: a fault in the reload reads is outside the class ... *)
 Example C04_witness_unexposed : exposed (of_disk w0) wops (Some SReload) = false
   /\ exposed (of_disk w0) [OCreate 1 4; OModify 0 3] (Some SDbCommit) = false.
 Proof. vm_compute. split; reflexivity. Qed.
 
 (* ... and hypothesis of C04_exposed_is_torn / the refutation witness: COMMIT fails after the
    publications; readers see profile, domain name and OAuth2 client of the FAILED transaction *)
-Example C04_witness_refuted :
+Example C04_witness_prefix_refuted :
   exposed (of_disk w0) wops (Some SDbCommit) = true /\
   let r := run_txn steps_head (of_disk w0) wops (TCommit (Some SDbCommit)) in
   snd r = false /\ read_view (fst r) = mkcells [(0, 2); (2, 1)] true 7 [0; 1] /\ read_view (reopen (fst r)) = w0.
 Proof. vm_compute. repeat split; reflexivity. Qed.
 (* set_db_ts_max fails: only the IDM-level cell (OAuth2 clients) is already published *)
-Example C04_witness_refuted_tsmax :
+Example C04_witness_prefix_refuted_tsmax :
   let r := run_txn steps_head (of_disk w0) wops (TCommit (Some STsMax)) in
   snd r = false /\ read_view (fst r) = mkcells [(0, 2); (2, 1)] false 3 [0; 1].
 Proof. vm_compute. split; reflexivity. Qed.
 (* with the repaired order the same fault leaves no trace *)
-Example C04_witness_fixed_order :
+Example C04_witness_no_trace :
   let r := run_txn steps_fixed (of_disk w0) wops (TCommit (Some SDbCommit)) in
   snd r = false /\ observe (fst r) = (w0, w0).
 Proof. vm_compute. split; reflexivity. Qed.
@@ -49,11 +49,13 @@ Example C04_witness_history :
   /\ spec_hist w0 h = mkcells [(0, 2); (1, 2); (2, 1)] false 3 [1].
 Proof. vm_compute. split; reflexivity. Qed.
 
-(* the tie: shapes of cases as the harness prints them *)
+(* the tie: shapes of cases as the harness prints them. The torn observation of the pre-fix tree
+   agrees with the pre-fix order only and fails the property; on the tree at HEAD the same fault
+   must show the state before. *)
+Definition torn : case := CTxn w0 [ODomain 7] None true [8; 0; 0] [0; 1; 2; 3; 4; 4; 5; 6] 1 (mkcells [(0, 2); (2, 1)] false 7 [1]) w0.
+Definition clean : case := CTxn w0 [ODomain 7] None true [8; 0; 0] [0; 1; 2; 3; 4; 4; 5; 6] 1 w0 w0.
 Example C04_witness_agree :
-  agree (CTxn w0 [ODomain 7] None true [8; 0; 0] [0; 1; 2; 3; 4; 4; 5; 6] 1 (mkcells [(0, 2); (2, 1)] false 8 [1]) w0) = false /\
-  agree (CTxn w0 [ODomain 7] None true [8; 0; 0] [0; 1; 2; 3; 4; 4; 5; 6] 1 (mkcells [(0, 2); (2, 1)] false 7 [1]) w0) = true /\
-  known (CTxn w0 [ODomain 7] None true [8; 0; 0] [0; 1; 2; 3; 4; 4; 5; 6] 1 (mkcells [(0, 2); (2, 1)] false 7 [1]) w0) = true /\
-  pcheck (CTxn w0 [ODomain 7] None true [8; 0; 0] [0; 1; 2; 3; 4; 4; 5; 6] 1 (mkcells [(0, 2); (2, 1)] false 7 [1]) w0) = false /\
+  agree_with steps_head torn = true /\ agree torn = false /\ pcheck torn = false /\ known torn = false /\
+  agree clean = true /\ pcheck clean = true /\
   agree (CTxn w0 [OCreate 1 1] None false [8; 0] [1; 2; 3; 4; 5; 6; 7] 0 (mkcells [(0, 2); (1, 1); (2, 1)] false 3 [1]) (mkcells [(0, 2); (1, 1); (2, 1)] false 3 [1])) = true.
 Proof. vm_compute. repeat split; reflexivity. Qed.
